@@ -3,7 +3,7 @@ import core
 from cycles import *
 
 
-def iq(a, b, sub, data="full", timeout=1500):
+def iq(a, b, sub, data="full", timeout=1500, bmode=0):
     (ca, ka, ra, la, ma, n1a, sa) = a
     (cb, kb, rb, lb, mb, n1b, sb) = b
     use28 = RS28 in (ca, cb)
@@ -11,6 +11,8 @@ def iq(a, b, sub, data="full", timeout=1500):
     remove = tuple(core.KERNELS if use28 else core.KERNELS[:3])
     p = dict(CODEC=ca, PK=ka, PR=ra, PLEN=la, PM=ma, PN1=n1a, PSEED=sa, BCODEC=cb, BK=kb, BR=rb, BLEN=lb, BM=mb, BN1=n1b, BSEED=sb,
              NSUB=len(sub), SUB_INIT=init_list(sub), STUB_KERNELS=1, VERIF_RAND_MODE=1)
+    if bmode:
+        p["BMODE"] = bmode
     fb = ka * la * 8
     if data == "one":
         p["FREE_ONE_SYMBOLIC"] = 1
@@ -36,16 +38,37 @@ def build(tier):
         if tier == "thorough":
             subs += [list(range(n))[::-1], [0, 0, n - 1]]
         for bi, b in enumerate(B):
-            if tier == "quick" and (ai + bi) % 2 and not (a[0] == LDPC and b[0] == LDPC):
-                continue
             for si, sub in enumerate(subs):
-                if tier == "quick" and si != (ai + bi) % len(subs):
+                if tier == "quick" and ((ai + bi) % 2 and not (a[0] == LDPC and b[0] == LDPC) or si != (ai + bi) % len(subs)):
                     continue
                 qs.append(iq(a, b, sub, data=("full" if a[0] == LDPC or k * a[3] <= 2 else "one")))
+    # BMODE 1: a whole encoder life and a whole decoder life of B inside every window between two
+    # calls of A (BMODE 0 above: B lives across A's calls).  A Reed-Solomon with B of every family
+    # (file-scope state of the RS codecs: field size, tables, work buffers); LDPC A only in the
+    # thorough tier (its shared state is the PRNG, which is a fresh symbolic value in every window
+    # of both modes; each window then costs a whole LDPC life: ~4-6 min per query).
+    B4, B8, B28, BL = (RS2M, 2, 2, 3, 4, 0, 0), (RS2M, 2, 2, 2, 8, 0, 0), (RS28, 1, 2, 2, 8, 0, 0), (LDPC, 2, 3, 3, 0, 3, 7)
+    # the last two A: codes whose generator construction reduces exponents modulo 2^m-1
+    # ((n-2)(k-1) >= 15), so that a field size or table borrowed from another session changes something
+    pairs = [((RS2M, 2, 2, 2, 4, 0, 0), (B4, B8, B28, BL)), ((RS2M, 2, 2, 1, 8, 0, 0), (B4, B8, B28, BL)), ((RS28, 2, 2, 1, 8, 0, 0), (B4, B28, BL)),
+             ((RS2M, 4, 3, 1, 4, 0, 0), (B8, B28)), ((RS2M, 4, 3, 1, 8, 0, 0), (B4, B28))]
+    if tier == "thorough":
+        pairs += [((LDPC, 3, 3, 5, 0, 3, 1), (B4, B28)), ((LDPC, 3, 4, 1, 0, 4, 1), (B8, B28)), ((RS2M, 3, 2, 3, 8, 0, 0), (B4, B8, B28, BL)),
+                  ((RS2M, 4, 3, 1, 4, 0, 0), (B4, BL)), ((RS2M, 4, 3, 1, 8, 0, 0), (B8, BL))]
+    for ai, (a, bs) in enumerate(pairs):
+        n = a[1] + a[2]
+        k = a[1]
+        subs = [list(range(k, n)) + [0], [n - 1] + list(range(1, k)) + [k]]
+        for bi, b in enumerate(bs):
+            sub = subs[(ai + bi) % 2]
+            q = iq(a, b, sub, data=("full" if a[0] == LDPC or k * a[3] <= 2 else "one"), bmode=1)
+            q.object_bits = 12          # a whole life of B in every window allocates > 2^10 objects for the larger A
+            qs.append(q)
+    qs.sort(key=lambda q: -((3 if RS28 in (q.params["CODEC"], q.params["BCODEC"]) else 1) * (2 if q.params.get("BMODE") else 1)))
     meta = dict(
         units=["all translation units of src/ except lib_advanced/ (two sessions of different codecs live at once)"],
         functions_encoded=["the public API on two interleaved sessions", "process globals of_seed (of_rand.c) and of_verbosity (of_openfec_api.c)", "rand() stub"],
-        bounds="session A in %s (encode all repairs, release, decode a submission sequence, of_finish_decoding, read the source table, release) run alone and run with (i) of_seed and of_verbosity set to fresh symbolic values and (ii) one step of the life of a session B in %s (create with verbosity 1, configure, encode, create decoder, configure, decode, finish, release, start over) executed between every two calls of A, and the rand() stub counting across both sessions; all statuses, repair symbol bytes, completion after each call and decoded bytes of A must be identical for all source data of A and all values of the globals (2^64 x 2 per interleaving point)" % ([(CODEC_NAME[a[0]],) + a[1:4] for a in A], [(CODEC_NAME[b[0]],) + b[1:4] for b in B]),
+        bounds="session A in %s (encode all repairs, release, decode a submission sequence, of_finish_decoding, read the source table, release) run alone and run with (i) of_seed and of_verbosity set to fresh symbolic values and (ii) one step of the life of a session B in %s (create with verbosity 1, configure, encode, create decoder, configure, decode, finish, release, start over) executed between every two calls of A (BMODE 0: B lives across A's calls) or a whole encoder life and a whole decoder life of B executed between every two calls of A (BMODE 1: every call of B falls into every window of A), and the rand() stub counting across both sessions; all statuses, repair symbol bytes, completion after each call and decoded bytes of A must be identical for all source data of A and all values of the globals (2^64 x 2 per interleaving point)" % ([(CODEC_NAME[a[0]],) + a[1:4] for a in A], [(CODEC_NAME[b[0]],) + b[1:4] for b in B]),
         outside_bounds="threads (the property says same thread); more than two sessions at once; interleaving points inside B other than its step boundaries; other submission sequences",
         stubs=[RS_STUB, RS28_TABLES, "rand() = 0,1,2,... across both sessions"], assumptions=STD_ASSUMPTIONS, exhaustive=False)
     return qs, meta
